@@ -247,5 +247,8 @@ def check(ctx):
     ctx.rule("R6", "the watch survives its neighbours' timeouts: the ping loop sleeps in config_sleep on a future shared with every other sleeper; that wait must not be able to cancel the shared future (asyncio.wait, or wait_for on a shield) - otherwise the first timeout of any sleeper ends the ping loop with CancelledError and an unreachable spa is never reported (C17's sleeper model borrowed)")
     from .c17 import sleeper_model
     sleeper_model(ctx.borrowed("R6", "C17", key_contains="leaves-the-shared-future-alone"), repo, "R3")
+    ctx.rule("R7", "what one connection counts does not follow the manager into the next: no class keeps per-connection data (error counts, change lists, caches) in a class-level container mutated through the instance (C10.R8's rule borrowed) - an RF-error count shared by all RFERR handlers of the process crosses the halt threshold in the middle of a later handshake and the reset it triggers kills the reconnect driver")
+    from .c10 import shared_class_state
+    shared_class_state(ctx.borrowed("R7", "C10"), repo, "R8")
     ctx.note("NOT decided (the headline of the property): that recovery happens, within what time, after which fault scripts; that the facade's values mirror the spa afterwards. States that are terminal by design (CONNECTING after 'cannot find spa pack') are not flagged.")
     ctx.assume("a ping loop exists in the states named by the ping-received row (a connection was established before the error)")
